@@ -3075,6 +3075,17 @@ func (db *DB) Snapshot(ctx context.Context) (*ltx.FileInfo, error) {
 	}
 	defer func() { _ = r.Close() }()
 
+	// A snapshot must not get ahead of the level-0 files on the replica. The
+	// replica check that follows a loss or reset of the local state (auto-
+	// recover) only looks at level 0: it would continue below the snapshot's
+	// position and hand out its TXIDs again for other content, and restores
+	// would then prefer the stale snapshot. Upload the level-0 files first.
+	if db.Replica.Pos().TXID < pos.TXID {
+		if err := db.Replica.Sync(ctx); err != nil {
+			return nil, fmt.Errorf("replica sync before snapshot: %w", err)
+		}
+	}
+
 	info, err := db.Replica.Client.WriteLTXFile(ctx, SnapshotLevel, 1, pos.TXID, r)
 	if err != nil {
 		return info, err
